@@ -168,6 +168,57 @@ def run_cases(chk, cases, file_every=1):
     return events
 
 
+def contents_source(attrs):
+    a = attrs_text(attrs)
+    ai = a.replace("\n", " ")
+    return f"""
+#[typeshare]
+pub struct CInner {{ pub i: u32 }}
+#[typeshare]
+pub struct CHostF {{ pub keep: u32, {ai} #[serde(flatten)] pub gmember: CInner }}
+#[typeshare]
+pub struct CHostB {{ pub keep: u32, {ai} pub gmember: u64 }}
+#[typeshare]
+#[serde(tag = "t", content = "c")]
+pub enum CHostV {{ Keep(u32), {ai} GBad(u32, String), Sv {{ keep: u32, {ai} #[serde(flatten)] gmember: CInner }} }}
+#[typeshare]
+{a}pub struct CBig {{ pub n: u64 }}
+"""
+
+
+def dropped_contents(chk, cases):
+    """MC_C13!Contents: a member the rule drops may be anything - also something typeshare refuses when it is kept"""
+    jobs, meta = [], []
+    for attrs, keep in cases:
+        bits = [b for b in range(16) if not keep[b]]
+        for bit in bits[:1] + bits[-1:]:
+            jobs.append({"id": len(jobs), "lang": "typescript", "dump": True, "parse_only": True, "target_os": targets_of(bit), "files": [{"src": contents_source(attrs)}]})
+            meta.append((attrs, targets_of(bit)))
+    for res, (attrs, T) in zip(common.run_driver("gen", jobs), meta):
+        chk.judged((str(attrs), tuple(T), "contents"))
+        if res["status"] in ("panic", "abort", "hang"):
+            continue          # C07
+        if res["status"] != "ok":
+            chk.mismatch(f"C13/contents/{shape(attrs)}/{tclass(attrs, T)}/dropped-member-still-judged",
+                         f"members guarded by {attrs_text(attrs).strip()} are dropped for --target-os {T}, yet the run fails on what they contain: {str(res.get('errors'))[:200]}",
+                         {"attrs": attrs, "targets": T, "level": "contents"}, "run succeeds without the members", res["status"])
+            continue
+        pd = (res.get("parsed") or {}).get("", {})
+        structs = {s_["id"]["original"]: s_ for s_ in pd.get("structs", [])}
+        enums = {e_["id"]["original"]: e_ for e_ in pd.get("enums", [])}
+        left = [n for n in ("CHostF", "CHostB") if n in structs and any(f["id"]["original"] == "gmember" for f in structs[n]["fields"])]
+        if "CBig" in structs:
+            left.append("CBig")
+        if "CHostV" in enums:
+            left += ["CHostV::GBad" for v in enums["CHostV"]["variants"] if v["id"]["original"] == "GBad"]
+            left += ["CHostV::Sv.gmember" for v in enums["CHostV"]["variants"] if v["id"]["original"] == "Sv" and any(f["id"]["original"] == "gmember" for f in v.get("fields", []))]
+        missing = [n for n in ("CHostF", "CHostB") if n not in structs] + ([] if "CHostV" in enums else ["CHostV"])
+        if left or missing:
+            chk.mismatch(f"C13/contents/{shape(attrs)}/{tclass(attrs, T)}/kept=True",
+                         f"guarded by {attrs_text(attrs).strip()} with --target-os {T}: the rule drops the members, typeshare kept {left} / lost the hosts {missing}",
+                         {"attrs": attrs, "targets": T, "level": "contents"}, False, True)
+
+
 def rand_expr(rng, depth, oses):
     if depth == 0 or rng.random() < 0.25:
         r = rng.random()
@@ -233,6 +284,7 @@ def run(chk):
     else:
         run_cases(chk, cases, file_every=1)
     chk.traces += len(cases) * 16
+    dropped_contents(chk, cases if not thorough else cases[::5])
 
     rng = chk.rng
     rcases = []
@@ -263,6 +315,12 @@ def run(chk):
 
 def replay(chk, rec):
     c = rec["case"]
+    if c.get("level") == "contents":
+        bitvec = [True] * 16
+        bitvec[sum(1 << i for i, t in enumerate(TARGETS) if t in c["targets"])] = False
+        dropped_contents(chk, [(c["attrs"], bitvec)])
+        chk.mismatches = {k: v for k, v in chk.mismatches.items() if k == rec["signature"]}
+        return
     silent = common.Check(chk.pid, chk.tier, chk.seed)
     events = [e for e in run_cases(silent, [(c["attrs"], None)], file_every=1)
               if e["targets"] == c["targets"] and e["level"] == c["level"].replace("cli-struct", "struct").replace("cli-field", "field")]
